@@ -4,6 +4,20 @@ package structuredheader
 
 // Contracts for govc (comment-only; compiled only with -tags verif).
 
+// Character classes of draft-ietf-httpbis-header-structure-09.
+//@ def lcAlpha(c byte) bool = c >= 'a' && c <= 'z'
+//@ def alpha(c byte) bool = (c >= 'a' && c <= 'z') || (c >= 'A' && c <= 'Z')
+//@ def digit(c byte) bool = c >= '0' && c <= '9'
+//@ def keyChar(c byte) bool = lcAlpha(c) || digit(c) || c == '_' || c == '-'
+//@ def tokenChar(c byte) bool = alpha(c) || digit(c) || c == '_' || c == '-' || c == '.' || c == ':' || c == '%' || c == '*' || c == '/'
+//@ def b64Char(c byte) bool = alpha(c) || digit(c) || c == '+' || c == '/' || c == '='
+
+// rest(now, before, n): the parser has consumed exactly the first n
+// characters of `before`; `now` is what is left.
+//@ def rest(now string, before string, n int) bool = n >= 0 && len(now) + n == len(before) && (forall i int :: 0 <= i && i < len(now) ==> now[i] == before[n + i])
+// took(v, before): v is the prefix of `before` of its own length.
+//@ def took(v string, before string) bool = len(v) <= len(before) && (forall i int :: 0 <= i && i < len(v) ==> v[i] == before[i])
+
 //@ func ParseListOfLists
 //@   props C16 C10
 //@   trusted
@@ -13,3 +27,74 @@ package structuredheader
 //@   props C16 C10
 //@   trusted
 //@   assigns nothing
+
+// key = lcalpha *( lcalpha / DIGIT / "_" / "-" ), longest match.
+//@ func (*parser).parseKey
+//@   props C16 C10
+//@   returns (k, err)
+//@   ensures[accepts-iff] err == nil <==> (len(old(p.input)) > 0 && lcAlpha(old(p.input)[0]))
+//@   ensures[key-grammar] err == nil ==> len(k) >= 1 && lcAlpha(k[0]) && (forall i int :: 0 <= i && i < len(k) ==> keyChar(k[i]))
+//@   ensures[consumes-exactly-the-key] err == nil ==> took(k, old(p.input)) && rest(p.input, old(p.input), len(k))
+//@   ensures[longest-match] err == nil && len(p.input) > 0 ==> !keyChar(p.input[0])
+//@   ensures[error-consumes-nothing] err != nil ==> p.input == old(p.input)
+//@   assigns p.input
+//@   loop 0:
+//@     invariant 0 <= i && i <= len(p.input) && p.input == old(p.input)
+//@     invariant forall j int :: 0 <= j && j < i ==> keyChar(p.input[j])
+//@     decreases len(p.input) - i
+
+// token = ALPHA *( ALPHA / DIGIT / "_" / "-" / "." / ":" / "%" / "*" / "/" ), longest match.
+//@ func (*parser).parseToken
+//@   props C16 C10
+//@   returns (k, err)
+//@   ensures[accepts-iff] err == nil <==> (len(old(p.input)) > 0 && alpha(old(p.input)[0]))
+//@   ensures[token-grammar] err == nil ==> len(k) >= 1 && alpha(k[0]) && (forall i int :: 0 <= i && i < len(k) ==> tokenChar(k[i]))
+//@   ensures[consumes-exactly-the-token] err == nil ==> took(k, old(p.input)) && rest(p.input, old(p.input), len(k))
+//@   ensures[longest-match] err == nil && len(p.input) > 0 ==> !tokenChar(p.input[0])
+//@   ensures[error-consumes-nothing] err != nil ==> p.input == old(p.input)
+//@   assigns p.input
+//@   loop 0:
+//@     invariant 0 <= i && i <= len(p.input) && p.input == old(p.input)
+//@     invariant forall j int :: 0 <= j && j < i ==> tokenChar(p.input[j])
+//@     decreases len(p.input) - i
+
+// number = ["-"] 1*DIGIT (integers only), longest match, value by strconv.
+//@ func (*parser).parseNumber
+//@   props C16 C10
+//@   returns (n, err)
+//@   ensures[number-grammar] err == nil ==> exists m int :: m >= 1 && m <= len(old(p.input)) && (old(p.input)[0] == '-' || digit(old(p.input)[0])) && (forall i int :: 1 <= i && i < m ==> digit(old(p.input)[i])) && rest(p.input, old(p.input), m) && (len(p.input) > 0 ==> !digit(p.input[0]))
+//@   ensures[rejects-non-numbers] len(old(p.input)) == 0 || (old(p.input)[0] != '-' && !digit(old(p.input)[0])) ==> err != nil
+//@   assigns p.input
+//@   loop 0:
+//@     invariant 1 <= i && i <= len(p.input) && p.input == old(p.input)
+//@     invariant forall j int :: 1 <= j && j < i ==> digit(p.input[j])
+//@     decreases len(p.input) - i
+
+// string = DQUOTE *( %x20-21 / %x23-5B / %x5D-7E / "\" ( DQUOTE / "\" ) ) DQUOTE
+//@ func (*parser).parseString
+//@   props C16 C10
+//@   returns (s, err)
+//@   ensures[string-chars-printable] err == nil ==> forall i int :: 0 <= i && i < len(s) ==> 32 <= s[i] && s[i] <= 126
+//@   ensures[starts-with-quote] err == nil ==> len(old(p.input)) >= 2 && old(p.input)[0] == '"'
+//@   ensures[consumed-a-prefix] exists m int :: rest(p.input, old(p.input), m)
+//@   assigns p.input
+//@   loop 0:
+//@     invariant forall i int :: 0 <= i && i < len(bstr(b)) ==> 32 <= bstr(b)[i] && bstr(b)[i] <= 126
+//@     invariant exists m int :: m >= 1 && rest(p.input, old(p.input), m)
+//@     invariant old(p.input)[0] == '"' && len(old(p.input)) >= 1
+//@     decreases len(p.input)
+
+// byte-sequence = "*" *( base64 alphabet / "=" ) "*"
+//@ func (*parser).parseByteSequence
+//@   props C16 C10
+//@   returns (bs, err)
+//@   ensures[byte-sequence-grammar] err == nil ==> exists m int :: m >= 0 && m + 2 <= len(old(p.input)) && old(p.input)[0] == '*' && old(p.input)[m + 1] == '*' && (forall i int :: 1 <= i && i <= m ==> b64Char(old(p.input)[i])) && rest(p.input, old(p.input), m + 2)
+//@   assigns p.input
+
+// item: dispatch on the first character.
+//@ func (*parser).parseItem
+//@   props C16 C10
+//@   returns (it, err)
+//@   ensures[item-kinds] err == nil ==> typeis(it, int64) || typeis(it, string) || typeis(it, Token) || typeis(it, []byte)
+//@   ensures[dispatch] err == nil ==> len(old(p.input)) > 0 && ((typeis(it, int64) <==> (old(p.input)[0] == '-' || digit(old(p.input)[0]))) && (typeis(it, string) <==> old(p.input)[0] == '"') && (typeis(it, []byte) <==> old(p.input)[0] == '*') && (typeis(it, Token) <==> alpha(old(p.input)[0])))
+//@   assigns p.input
